@@ -74,6 +74,20 @@ def gen_call(rng, callee, params, vars_, wrong=None, modes_from=None, loopvar=No
     pool = modes_from or list(range(0, 14))
     if loopvar and len(callee["modes"]) <= 2 and wrong is None:
         ms = [{"lv": loopvar, "plus": j} for j in range(n)]
+    elif wrong is None and rng.random() < 0.25:
+        # the subroutine applied to its own modes: identity, reversed, in the order a set
+        # of them iterates, or any other permutation (every renaming is then a permutation)
+        own = list(callee["modes"])
+        k = rng.random()
+        if k < 0.25:
+            pass
+        elif k < 0.5:
+            own.reverse()
+        elif k < 0.75:
+            own = list(set(own))
+        else:
+            rng.shuffle(own)
+        ms = [{"m": m} for m in own]
     else:
         ms = [{"m": m} for m in rng.sample(pool, min(n, len(pool)))]
         while len(ms) < n:
